@@ -115,6 +115,8 @@ MUTANTS = [  # (contract module, qualname, file, regex, replacement, expect)  ex
  ("contracts.c15", "JunctionTree.add_edge", "pgmpy/models/JunctionTree.py", r"if u in self.nodes\(\) and v in self.nodes\(\) and nx.has_path\(self, u, v\):", "if v in self.nodes() and u in self.nodes() and nx.has_path(self, v, u):", "hold"),
  ("contracts.c15", "ClusterGraph.add_edge", "pgmpy/models/ClusterGraph.py", r"super\(ClusterGraph, self\).add_edge\(u, v\)", "super(ClusterGraph, self).add_edge(u, u)", "break"),
  ("contracts.c15", "ClusterGraph.add_edge", "pgmpy/models/ClusterGraph.py", r"if set_u.isdisjoint\(set_v\):", "if set_u.isdisjoint(set_v) and set_u:", "break"),
+ ("contracts.c15", "FactorGraph.add_edge", "pgmpy/models/FactorGraph.py", r"        if u != v:\n            super\(FactorGraph, self\).add_edge\(u, v, \*\*kwargs\)", "        if True:\n            super(FactorGraph, self).add_edge(u, v, **kwargs)", "break"),
+ ("contracts.c15", "FactorGraph.add_edge", "pgmpy/models/FactorGraph.py", r"        if u != v:\n            super\(FactorGraph, self\).add_edge\(u, v, \*\*kwargs\)", "        if u != v:\n            super(FactorGraph, self).add_edge(v, v, **kwargs)", "break"),
  ("contracts.c15", "MarkovNetwork.add_factors", "pgmpy/models/MarkovNetwork.py", r"set\(factor.variables\) - set\(factor.variables\).intersection\(\n                set\(self.nodes\(\)\)\n            \)", "set(factor.variables[1:]) - set(self.nodes())", "break"),
 ]
 
